@@ -604,6 +604,38 @@ impl<'a, W: Write> Run<'a, W> {
         }
     }
     /// evaluates a handle by walking the stored nodes; None if the walk leaves the table or does not end
+    /// If the handle denotes a satisfiable conjunction of literals (every node on its single path has one child equal to the
+    /// constant false), the literals; None otherwise.
+    fn as_cube(&self, g: Ref) -> Option<Vec<(u32, bool)>> {
+        let cap = self.bdd.storage().capacity();
+        let mut lits = Vec::new();
+        let mut cur = g;
+        for _ in 0..200_000 {
+            if cur == self.bdd.one {
+                return Some(lits);
+            }
+            if cur == self.bdd.zero {
+                return None;
+            }
+            let i = cur.index();
+            if i == 0 || (i as usize) >= cap {
+                return None;
+            }
+            let v = self.bdd.variable(i);
+            let (lo, hi) = (self.bdd.low_node(cur), self.bdd.high_node(cur));
+            if lo == self.bdd.zero {
+                lits.push((v, true));
+                cur = hi;
+            } else if hi == self.bdd.zero {
+                lits.push((v, false));
+                cur = lo;
+            } else {
+                return None;
+            }
+        }
+        None
+    }
+
     fn eval_at(&self, r: Ref, seed: u64, over: &[(u32, bool)]) -> Option<bool> {
         let cap = self.bdd.storage().capacity();
         let mut cur = r;
@@ -734,6 +766,16 @@ impl<'a, W: Write> Run<'a, W> {
                     if g && f != got {
                         self.oracle_fail(if t[0] == "constrain" { "C10" } else { "C11" }, &format!("{} returned {}: differs from f at assignment #{:x} where g holds", t.join(" "), r, seed));
                         return;
+                    }
+                }
+                // ... and when g is a cube (a conjunction of literals) the result is the plain cofactor of f, everywhere
+                if let (Some(fr), Some(gr)) = (self.fetch(t[1]), self.fetch(t[2])) {
+                    if let Some(cube) = self.as_cube(gr) {
+                        if self.eval_at(fr, seed, &cube) != Some(got) {
+                            self.oracle_fail(if t[0] == "constrain" { "C10" } else { "C11" },
+                                &format!("{} returned {}: g is a cube of {} literals, but at assignment #{:x} the result differs from the cofactor of f", t.join(" "), r, cube.len(), seed));
+                            return;
+                        }
                     }
                 }
             }
